@@ -13,8 +13,18 @@ def pred_game(rng, kind=None, stratum=None, n=None, maxsize=8):
     kind = kind or rng.choice(KINDS)
     beta, kappa, tau = gen_config(rng)
     stratum = stratum or rng.choice(["typical", "typical", "wide", "corners", "mismatch", "identical", "identical", "equalsize", "tiny-sigma", "equal-ordinal",
-                                     "near-identical", "near-identical", "zero-sigma", "newcomers", "crushing"])
-    if stratum == "crushing":
+                                     "near-identical", "near-identical", "zero-sigma", "newcomers", "crushing", "hash-collide"])
+    if stratum == "hash-collide":
+        # team totals that differ although their Python hashes coincide (hash(-1.0) == hash(-2.0), hash(-1) == hash(-2), hash(1.0) ==
+        # hash(2.0**61)): values are never to be told apart, or identified, through hash()
+        n = n or rng.randint(3, 5)
+        beta = rng.choice([core.DEFAULTS["beta"], 1.0, 0.5])
+        sg = rng.choice([beta * 2.0, 1.0, 8.0])
+        pool = [[(-1.0, sg)], [(-2.0, sg)], [(-1.5, sg), (0.5, 0.0)], [(-0.5, sg), (-1.5, 0.0)], [(1.0, sg)], [(0.0, sg)], [(-1.0, sg * 0.5)]]
+        teams = [pool[0], pool[1]] + [rng.choice(pool[2:]) for _ in range(n - 2)]
+        teams = [list(t) for t in teams]
+        rng.shuffle(teams)
+    elif stratum == "crushing":
         # large teams of settled players at opposite ends of the range: some pairwise z beyond 38.6, where Phi is exactly 0.0 / 1.0 in
         # doubles, next to pairs with a real contest
         n = n or rng.randint(3, 5)
